@@ -29,14 +29,15 @@ ValueObs(o) == LET sc == Doc.schemas[o.si] IN
 NoVs == [p \in Parts |-> "U"]
 Vs(o) == IF o.kind = "case" THEN [p \in Parts |-> Verdict(Doc.ops[o.opi], o.c, p)] ELSE NoVs
 ValidOf(o) == LET sc == Doc.schemas[o.si] IN ValidD(sc.defs, sc.schema, o.value, "request", sc.dia)
-Rule(o, vs) ==
-  CASE o.kind = "value" -> C03_Value(ValueObs(o))
-    [] o.kind = "case" /\ o.prop = "C03" -> C03_Case(Doc.ops[o.opi], o.c, vs)
-    [] o.kind = "case" /\ o.prop = "C01" -> C01_Case(Doc.ops[o.opi], o.c, vs)
+One(r) == IF r = "ok" THEN {} ELSE {r}
+Rule(o, vs) ==          \* the set of rules the observation breaks
+  CASE o.kind = "value" -> One(C03_Value(ValueObs(o)))
+    [] o.kind = "case" /\ o.prop = "C03" -> One(C03_Case(Doc.ops[o.opi], o.c, vs))
+    [] o.kind = "case" /\ o.prop = "C01" -> One(C01_Case(Doc.ops[o.opi], o.c, vs))
     [] o.kind = "case" /\ o.prop = "C02" -> C02_Case(Doc.ops[o.opi], o.c, vs)
-    [] o.kind = "outcome" /\ o.prop = "C01" -> C01_Outcome(Doc.ops[o.opi], o.outcome)
-    [] o.kind = "outcome" /\ o.prop = "C02" -> C02_Outcome(Doc.ops[o.opi], o.outcome, o.negOnly)
-    [] OTHER -> "unknown-observation"
+    [] o.kind = "outcome" /\ o.prop = "C01" -> One(C01_Outcome(Doc.ops[o.opi], o.outcome))
+    [] o.kind = "outcome" /\ o.prop = "C02" -> One(C02_Outcome(Doc.ops[o.opi], o.outcome, o.negOnly))
+    [] OTHER -> {"unknown-observation"}
 (* which keywords of the declared schema reject the value on their own (for the finding signature) *)
 ViolatedKw(o) == LET sc == Doc.schemas[o.si]
                      d == Deref(sc.defs, sc.schema) IN
@@ -77,6 +78,6 @@ Report == i = 0 \/
           LET o == Obs[i]
               vs == Vs(o)
               r == Rule(o, vs) IN
-          /\ IF r = "ok" THEN TRUE ELSE PrintT(<<"DISAGREE", ToJson([i |-> i, rule |-> r, detail |-> Detail(o, vs)])>>)
+          /\ IF r = {} THEN TRUE ELSE PrintT(<<"DISAGREE", ToJson([i |-> i, rules |-> r, detail |-> Detail(o, vs)])>>)
           /\ IF Definite(o, vs) THEN TRUE ELSE PrintT(<<"UNDECIDED", ToJson([i |-> i])>>)
 =============================================================================
